@@ -31,6 +31,7 @@ from fractions import Fraction
 
 Ty, Val, Untranslatable, mangle, dotted = P.Ty, P.Val, P.Untranslatable, P.mangle, P.dotted
 F64, INT, NAT, BOOL, NONE, STR, LIST, TUPLE, UNUSED = P.F64, P.INT, P.NAT, P.BOOL, P.NONE, P.STR, P.LIST, P.TUPLE, P.UNUSED
+REAL, EREAL = P.REAL, P.EREAL
 
 
 def OPT(t):
@@ -123,9 +124,15 @@ class Ctx:
 class FnSM(P.Fn):
     """translation of one imperative function / method / generator under one specialisation"""
 
-    def __init__(self, tr, spec, node, relfile, no_rng=False):
+    STREAMS = {"rng'": LIST(F64), "pois'": LIST(NAT)}       # hidden streams of the global numpy generator
+
+    def __init__(self, tr, spec, node, relfile, no_rng=False, no_streams=()):
         super().__init__(tr, spec, node, relfile)
-        self.no_rng = no_rng     # second pass: the only uses of numpy.random are in branches dropped by the specialisation
+        # second pass: streams whose only uses are in branches dropped by the specialisation are not parameters
+        self.no_streams = set(no_streams) | ({"rng'"} if no_rng else set())
+        self.no_rng = "rng'" in self.no_streams
+        self.used_streams = set()
+        self.uses_seed = False
         self.pending = []        # (bound name, monadic Lean code): operations that can raise, in evaluation order
         self.fuels = []
         self.uses_rng = False
@@ -196,13 +203,28 @@ class FnSM(P.Fn):
                     if isinstance(n.func, ast.Attribute) and n.func.attr in MUTATING_METHODS:
                         add(self.key_of(n.func.value))
                     if fn and fn.startswith(("numpy.random.", "np.random.")):
-                        add("rng'")
+                        kind = fn.split(".")[-1]
+                        for st_ in (["pois'"] if kind == "poisson" else ["rng'", "pois'"] if kind == "seed" else ["rng'"]):
+                            add(st_)
+                    var = self.callee_variant(n)
+                    if var is not None:
+                        for st_ in var.get("hidden", []):
+                            add(st_)
                 if isinstance(n, (ast.Yield, ast.YieldFrom)):
                     add("out'")
         if env is not None:      # order of definition in the function (stable under renaming of locals)
             order = {k: i for i, k in enumerate(env)}
             out = sorted([k for k in out if k in env], key=lambda k: order[k]) + [k for k in out if k not in env]
         return out
+
+    def callee_variant(self, call):
+        """TARGETS.callees: the generated definition that stands for a call of another translated function"""
+        fn = dotted(call.func)
+        vs = self.spec.get("callees", {}).get(fn)
+        if not vs:
+            return None
+        kws = sorted(k.arg for k in call.keywords if k.arg is not None)
+        return next((v for v in vs if sorted(v.get("kw", [])) == kws), {"bad": kws})
 
     def inplace_keys(self, stmts):
         out = set()
@@ -498,7 +520,19 @@ class FnSM(P.Fn):
                     and isinstance(s.step.operand, ast.Constant) and s.step.operand.value == 1 and v.ty.kind == "list":
                 return Val(f"(List.reverse {v.code})", v.ty)
             self.bad(e, "slice other than [::-1]")
+        if isinstance(s, ast.Tuple) and len(s.elts) == 2 and isinstance(s.elts[1], ast.Slice) and \
+                s.elts[1].lower is None and s.elts[1].upper is None and s.elts[1].step is None and \
+                v.ty.kind == "list" and v.ty.item is not None and v.ty.item.kind == "list":
+            # a[i, :] : row i of a 2-d array kept as a list of rows
+            i = self.expr(s.elts[0], env)
+            if i.ty.kind not in ("int", "nat"):
+                self.bad(e, f"row index of type {i.ty}")
+            t = self.fresh("t")
+            self.pending.append((t, f"(PySM.{'getN' if i.ty.kind == 'nat' else 'getI'} {v.code} {i.code})"))
+            return Val(t, v.ty.item)
         i = self.expr(s, env)
+        if v.ty.kind == "list" and i.ty.kind == "idxtuple":
+            return Val(f"(Py.gather {v.code} {i.code})", v.ty)
         if v.ty.kind == "list" and v.ty.item is not None and i.ty == LIST(BOOL):
             t = self.fresh("t")
             self.pending.append((t, f"(PySM.maskSelect {v.code} {i.code})"))
@@ -534,6 +568,16 @@ class FnSM(P.Fn):
         return super().compare(op, a, b, node)
 
     def e_Compare(self, e, env):
+        if len(e.ops) == 1 and isinstance(e.ops[0], ast.LtE):
+            n0 = len(self.pending)
+            a, b = self.expr(e.left, env), self.expr(e.comparators[0], env)
+            if b.ty.kind == "ereal" and a.ty.kind == "ereal":
+                self.uses_real = True
+                return Val(f"(PySM.ellLe {a.code} {b.code})", BOOL)
+            if b.ty.kind == "ereal" and a.ty == LIST(EREAL):
+                self.uses_real = True
+                return Val(f"(List.map (fun x_ => PySM.ellLe x_ {b.code}) {a.code})", LIST(BOOL))
+            del self.pending[n0:]
         if len(e.ops) == 1 and isinstance(e.ops[0], (ast.Is, ast.IsNot)):
             # identity tests are never elementwise
             return self.compare(e.ops[0], self.expr(e.left, env), self.expr(e.comparators[0], env), e)
@@ -663,6 +707,12 @@ class FnSM(P.Fn):
             if a.ty.kind == "bool" and b.ty.kind == "bool":
                 return Val(f"({a.code} {op} {b.code})", BOOL)
             self.bad(e, f"{fn} of {a.ty}, {b.ty}")
+        if np_("sum") and len(args) == 1 and not kw:
+            n0 = len(self.pending)
+            v = self.expr(args[0], env)
+            if v.ty == LIST(BOOL):
+                return Val(f"(PySM.countTrue {v.code})", NAT)
+            del self.pending[n0:]
         if np_("size") and len(args) == 1 and not kw:
             v = self.expr(args[0], env)
             if v.ty.kind == "list":
@@ -729,6 +779,44 @@ class FnSM(P.Fn):
                        for a, c in zip(args, (0, 1))):
                 self.bad(e, "numpy.random.uniform with bounds other than the literals (0, 1)")
             return self.rng_draw(None, env, e)
+        if np_("random.poisson") and len(args) == 1 and not kw:
+            self.expr(args[0], env)           # the mean: evaluated, not looked at (the draws are inputs)
+            if "pois'" not in env:
+                self.bad(e, "numpy.random.poisson used, but the function was not given the hidden stream")
+            self.used_streams.add("pois'")
+            t = self.fresh("r")
+            self.pending.append((t, f"(PySM.rngPoisson {env["pois'"].code})"))
+            env["pois'"] = Val(f"{t}.2", LIST(NAT))
+            return Val(f"{t}.1", NAT)
+        var = self.callee_variant(e)
+        if var is not None:
+            if "bad" in var:
+                self.bad(e, f"call of {fn} with keywords {var['bad']}: no such variant in TARGETS.callees")
+            res = self.tr.results.get(var["lean"])
+            if res is None or res["status"] != "ok":
+                self.bad(e, f"call of {fn}: its definition {var['lean']} is not translated "
+                            f"({(res or {}).get('reason', 'later in TARGETS')})")
+            vals = [self.expr(a, env) for a in args] + [self.expr(kw[k_], env) for k_ in var.get("kw", [])]
+            if len(vals) != len(var["types"]):
+                self.bad(e, f"call of {fn} with other arguments than TARGETS.callees declares")
+            codes = [self.coerce_sm(v, t_, e) for v, t_ in zip(vals, var["types"])]
+            hid = []
+            if var.get("fuel"):
+                # the callee has a `while` loop: its fuel is a parameter of this definition too (the same for every call)
+                if "fuel" not in self.fuels:
+                    self.fuels.append("fuel")
+                hid.append("fuel")
+            for st_ in var.get("hidden", []):
+                if st_ not in env:
+                    self.bad(e, f"call of {fn} needs the hidden stream {st_}")
+                self.used_streams.add(st_)
+                hid.append(env[st_].code)
+            t = self.fresh("c")
+            self.pending.append((t, f"({var['lean']} " + " ".join(hid + codes) + ")"))
+            n_res = 1 + len(var.get("hidden", []))
+            for i, st_ in enumerate(var.get("hidden", [])):
+                env[st_] = Val(t + "".join([".2"] * (i + 1)) + (".1" if i + 1 < n_res - 1 else ""), self.STREAMS[st_])
+            return Val(t if n_res == 1 else t + ".1", var["ret"])
         if np_("random.rand", "random.random", "random.random_sample") and len(args) == 1 and not kw:
             n = self.expr(args[0], env)
             if n.ty.kind not in ("nat", "int"):
@@ -760,6 +848,7 @@ class FnSM(P.Fn):
         if "rng'" not in env:
             self.bad(node, "numpy.random used, but the function was not given the hidden stream")
         self.uses_rng = True
+        self.used_streams.add("rng'")
         t = self.fresh("r")
         rng = env["rng'"].code
         self.pending.append((t, f"(PySM.rngUniform {rng})" if n is None else f"(PySM.rngRand {n} {rng})"))
@@ -813,7 +902,7 @@ class FnSM(P.Fn):
             env2 = dict(env)
             env2[key] = Val(self.lname(key), v.ty)
             return pre + f"{pad}let {self.lname(key)} : List (String × PySM.Cmp) := {v.code};\n" + go(env2)
-        if v.ty.kind in ("tzinfo", "tzstr", "monthrange", "utc", "unused", "idxtuple"):
+        if v.ty.kind in ("tzinfo", "tzstr", "monthrange", "utc", "unused"):
             self.bad(node, f"variable of helper type {v.ty}")
         env2 = dict(env)
         env2[key] = Val(self.lname(key), v.ty, lit=v.lit)
@@ -1014,6 +1103,20 @@ class FnSM(P.Fn):
                 self.used_rec = True
                 call = f"({self.spec['lean']} {{OPAQUE}} fuel " + " ".join(codes) + ")"
                 return pre0 + f"{pad}Except.bind {call} fun {r} =>\n{lets}" + self.blk(rest, env2, k, ind, ctx)
+            if fn in ("numpy.random.seed", "np.random.seed") and len(c.args) == 1 and not c.keywords:
+                sv = self.expr(c.args[0], env)
+                if sv.ty.kind not in ("int", "nat"):
+                    self.bad(s, f"numpy.random.seed of {sv.ty}")
+                pre0 = self.pre(pad)
+                self.uses_seed = True
+                env2 = dict(env)
+                out = ""
+                for st_, fnm in (("rng'", "seed_rng"), ("pois'", "seed_pois")):
+                    if st_ in env:
+                        nm = self.fresh("g")
+                        out += f"{pad}let {nm} := ({fnm} {self.to_int(sv, s)});\n"
+                        env2[st_] = Val(nm, self.STREAMS[st_])
+                return pre0 + out + self.blk(rest, env2, k, ind, ctx)
             if fn in ("numpy.add.at", "np.add.at") and len(c.args) == 3 and not c.keywords:
                 key = self.key_of(c.args[0])
                 self.check_inplace(key, env, s)
@@ -1314,11 +1417,12 @@ class FnSM(P.Fn):
             self.bad(node, f"TARGETS names parameters {extra} the function does not have")
         env, lean_params = {}, []
         self.ret_is_inout = False
-        uses_rng = not self.no_rng and any(dotted(n.func) and dotted(n.func).startswith(("numpy.random.", "np.random."))
-                                           for n in ast.walk(node) if isinstance(n, ast.Call))
+        touched = self.assigned_sm(list(node.body))
+        self.declared_streams = [st_ for st_ in self.STREAMS if st_ in touched and st_ not in self.no_streams]
+        uses_rng = "rng'" in self.declared_streams
         self.rng_declared = uses_rng
-        if uses_rng:
-            env["rng'"] = Val("rng'", LIST(F64))
+        for st_ in self.declared_streams:
+            env[st_] = Val(st_, self.STREAMS[st_])
         if self.is_gen:
             if self.yield_ty is None:
                 self.bad(node, "a generator needs the type of its items (TARGETS.yields)")
@@ -1366,16 +1470,23 @@ class FnSM(P.Fn):
             (k_ or "").startswith("self.") for k_ in self.assigned_sm(list(node.body)))
         if self.self_assigned:
             self.extras.append("self''")
-        if uses_rng:
-            self.extras.append("rng'")
+        for st_ in self.declared_streams:
+            self.extras.append(st_)
         body_stmts = list(node.body)
         live_params = []
         if spec.get("body_from") == "for":
             pos = next((i_ for i_, s_ in enumerate(body_stmts) if isinstance(s_, ast.For)), None)
             if pos is None:
                 self.bad(node, "TARGETS.body_from = 'for', but the function has no top-level for loop")
+            kept = []
             for s_ in body_stmts[:pos]:
+                if isinstance(s_, ast.If) and ast.unparse(s_.test) in spec.get("keep_before", []):
+                    kept.append(s_)          # translated, in place, before the loop (e.g. the seeding of the generator)
+                    continue
                 if not (isinstance(s_, ast.Expr) and isinstance(s_.value, ast.Constant)):
+                    if any(isinstance(n_, ast.Call) and (dotted(n_.func) or "").startswith(("numpy.random.", "np.random."))
+                           for n_ in ast.walk(s_)):
+                        self.bad(s_, "a statement left out before the loop uses numpy.random")
                     self.note(f"line {s_.lineno}: before the loop, not part of the definition: "
                               f"{ast.unparse(s_).splitlines()[0][:70]}")
             assigned_before = set(self.assigned_sm(body_stmts[:pos]))
@@ -1384,7 +1495,7 @@ class FnSM(P.Fn):
                     self.bad(node, f"live-in variable {nm} is not assigned before the loop")
                 env[nm] = Val(mangle(nm), t)
                 live_params.append((mangle(nm), t))
-            body_stmts = body_stmts[pos:]
+            body_stmts = kept + body_stmts[pos:]
         code = self.blk(body_stmts, env, k_end, 1, Ctx("fn"))
         lean_params = lean_params + live_params
         if self.pending:
@@ -1418,7 +1529,11 @@ class FnSM(P.Fn):
             if k_ in self.used_opaque and o["lean"] not in seen:
                 seen.add(o["lean"])
                 opq_params.append(f"({o['lean']} : {opaque_sig(o)})")
-        hidden = [f"({f} : Nat)" for f in self.fuels] + (["(rng' : List Rat)"] if uses_rng else []) + \
+        if self.uses_seed:
+            opq_params += [f"({fnm} : Int → {lty(self.STREAMS[st_])})"
+                           for st_, fnm in (("rng'", "seed_rng"), ("pois'", "seed_pois")) if st_ in self.declared_streams]
+        hidden = [f"({f} : Nat)" for f in self.fuels] + \
+                 [f"({st_} : {lty(self.STREAMS[st_])})" for st_ in self.declared_streams] + \
                  ([f"(rows' : {lty(spec['csv_rows'])})"] if self.uses_rows else [])
         if is_method:
             hidden.append("(self' : " + " × ".join(P._paren(lty(t)) for f, (lf, t) in self.self_fields.items()) + ")")
@@ -1430,7 +1545,12 @@ class FnSM(P.Fn):
         corder = list(spec.get("columns", {}))       # declared order: stable under reordering of the statements
         cols = [f"(col_{c} : {lty(rt_)} → {lty(ct)})"
                 for (c, rt_, ct) in sorted(self.used_cols, key=lambda u: corder.index(u[0]))]
-        sig = " ".join(([("{" + " ".join(recs) + " : Type}")] if recs else []) + opq_params + cols + hidden +
+        if any(t_.uses_real() for _, t_ in lean_params) or any(
+                t_.uses_real() for k_, o in spec.get("opaque", {}).items() if k_ in self.used_opaque
+                for t_ in list(o["args"]) + [o["ret"]]):
+            self.uses_real = True
+        sig = " ".join(([("{" + " ".join(recs) + " : Type}")] if recs else []) +
+                       (["{α : Type} [RealOps α]"] if self.uses_real else []) + opq_params + cols + hidden +
                        [f"({a} : {lty(t)})" for a, t in lean_params])
         head = [f"/-- `{self.name}` — {self.relfile}:{node.lineno}-{node.end_lineno}",
                 "    specialisation: " + ", ".join(
@@ -1529,6 +1649,24 @@ EV = TUPLE(STR, OPT(INT), OPT(F64), OPT(F64), OPT(F64), OPT(F64))
 _FILTER_OPAQUE = {"float": dict(lean="float_of_str", args=[STR], ret=F64, raises=True),
                   "strptime_to_utc_epoch": dict(lean="strptime_to_utc_epoch", args=[STR], ret=INT, raises=True)}
 
+# the simulation loop of _poisson_likelihood_test (C05 / C06)
+_PLT_LIVE = dict(sampling_weights=LIST(F64), sim_fore=LIST(NAT), simulated_ll=LIST(EREAL), n_obs=NAT,
+                 expected_forecast_count=REAL, log_bin_expectations=LIST(EREAL), observed_data_nonzero=LIST(NAT),
+                 target_event_forecast=LIST(EREAL))
+_PLT_CALLEES = {"_simulate_catalog": [
+    dict(lean="simulate_catalog_rand", kw=[], hidden=["rng'"], types=[NAT, LIST(F64), LIST(NAT)], ret=LIST(NAT)),
+    dict(lean="simulate_catalog", kw=["random_numbers"], hidden=[], types=[NAT, LIST(F64), LIST(NAT), LIST(F64)],
+         ret=LIST(NAT))]}
+_PLT_OPAQUE = {"poisson_joint_log_likelihood_ndarray": dict(lean="joint_ll", args=[LIST(EREAL), LIST(NAT), REAL], ret=EREAL)}
+
+_BLT_LIVE = dict(forecast_data=REC("Masked"), sampling_weights=LIST(F64), sim_fore=LIST(NAT), simulated_ll=LIST(REAL),
+                 n_active_cells=NAT)
+_BLT_CALLEES = {"_simulate_catalog": [
+    dict(lean="simulate_catalog_binary", kw=[], fuel=True, hidden=["rng'"], types=[NAT, LIST(F64), LIST(NAT)], ret=LIST(NAT)),
+    dict(lean="simulate_catalog_binary_injected", kw=["random_numbers"], hidden=[],
+         types=[NAT, LIST(F64), LIST(NAT), LIST(F64)], ret=LIST(NAT))]}
+_BLT_OPAQUE = {"binary_joint_log_likelihood_ndarray": dict(lean="binary_ll", args=[LIST(REAL), LIST(NAT)], ret=REAL)}
+
 # the catalog gridding methods (C03)
 _GRID_SELF = {"catalog": ("catalog", LIST(ROW)), "region": ("region", REC("Region"))}
 _GRID_COLS = {"longitude": F64, "latitude": F64, "magnitude": F64}
@@ -1560,6 +1698,39 @@ TARGETS = [
     dict(file="csep/core/binomial_evaluations.py", func="_simulate_catalog", lean="simulate_catalog_binary_injected",
          prop="C06", also=[], label="binomial_evaluations._simulate_catalog[random_numbers given]", params=dict(sim_cells=NAT, sampling_weights=LIST(F64), sim_fore=LIST(NAT),
                                           random_numbers=LIST(F64)), inout=["sim_fore"]),
+    # C05 / C06: the simulation loop of `_poisson_likelihood_test` (from the `for` loop on, plus the seeding `if` before
+    # it): sampling weights, prepared log-rates, expected count, `n_obs`, the observed target arrays and the (empty) result
+    # list are live-in parameters (their computation is tied by py2lean's `poisson_likelihood_stat` and by C06's weights);
+    # `_simulate_catalog` is the generated definition above; `poisson_joint_log_likelihood_ndarray` an opaque parameter;
+    # the global generator = the hidden streams `rng'` (uniforms) and `pois'` (Poisson draws), reseeded by
+    # `numpy.random.seed`. Two specialisations: numbers from the global generator / injected `random_numbers`.
+    dict(file="csep/core/poisson_evaluations.py", func="_poisson_likelihood_test", lean="poisson_test_loop", prop="C05",
+         also=["C06"], module="C05L", label="_poisson_likelihood_test[simulation loop, random_numbers=None]",
+         params=dict(forecast_data=UNUSED, observed_data=UNUSED, num_simulations=INT, random_numbers=NONE, seed=OPT(INT),
+                     use_observed_counts=BOOL, verbose={"static": False}, normalize_likelihood=UNUSED),
+         body_from="for", keep_before=["seed is not None"], live_in=_PLT_LIVE, callees=_PLT_CALLEES, opaque=_PLT_OPAQUE),
+    dict(file="csep/core/poisson_evaluations.py", func="_poisson_likelihood_test", lean="poisson_test_loop_injected",
+         prop="C05", also=["C06"], module="C05L", label="_poisson_likelihood_test[simulation loop, random_numbers given]",
+         params=dict(forecast_data=UNUSED, observed_data=UNUSED, num_simulations=INT, random_numbers=LIST(LIST(F64)),
+                     seed=OPT(INT), use_observed_counts=BOOL, verbose={"static": False}, normalize_likelihood=UNUSED),
+         body_from="for", keep_before=["seed is not None"], live_in=_PLT_LIVE, callees=_PLT_CALLEES, opaque=_PLT_OPAQUE),
+    # C16 / C06: the simulation loop of `_binary_likelihood_test` (same slicing as the Poisson one). Specialisation:
+    # `use_observed_counts=True` (with False the code reads `num_cells_to_simulate` before assigning it: NameError);
+    # `forecast_data` is the masked array built before the loop, an opaque object whose `.data` is read;
+    # `binary_joint_log_likelihood_ndarray` is an opaque parameter (tied by py2lean).
+    dict(file="csep/core/binomial_evaluations.py", func="_binary_likelihood_test", lean="binary_test_loop", prop="C16",
+         also=["C06"], module="C16L", label="_binary_likelihood_test[simulation loop, random_numbers=None]",
+         params=dict(forecast_data=UNUSED, observed_data=LIST(NAT), num_simulations=INT, random_numbers=NONE, seed=OPT(INT),
+                     use_observed_counts={"static": True}, verbose={"static": False}, normalize_likelihood=UNUSED),
+         body_from="for", keep_before=["seed is not None"], live_in=_BLT_LIVE, callees=_BLT_CALLEES, opaque=_BLT_OPAQUE,
+         rec_attrs={"Masked": {"data": LIST(REAL)}}),
+    dict(file="csep/core/binomial_evaluations.py", func="_binary_likelihood_test", lean="binary_test_loop_injected",
+         prop="C16", also=["C06"], module="C16L", label="_binary_likelihood_test[simulation loop, random_numbers given]",
+         params=dict(forecast_data=UNUSED, observed_data=LIST(NAT), num_simulations=INT, random_numbers=LIST(LIST(F64)),
+                     seed=OPT(INT), use_observed_counts={"static": True}, verbose={"static": False},
+                     normalize_likelihood=UNUSED),
+         body_from="for", keep_before=["seed is not None"], live_in=_BLT_LIVE, callees=_BLT_CALLEES, opaque=_BLT_OPAQUE,
+         rec_attrs={"Masked": {"data": LIST(REAL)}}),
     # C12: the decoder state machine of the catalog-forecast loader (a generator): `prev_id` / `events` / placeholder rows,
     # one catalog per id. Specialisation: `filename` is a regular file; the rows `csv.reader` hands to the loop are the
     # parameter `rows'` (tokenisation and the field parsing of the nested helper `read_catalog_line` are separate layers:
@@ -1679,8 +1850,9 @@ class TranslatorSM(P.Translator):
                 node = self.prepare(spec, node)
                 fn = FnSM(self, spec, node, spec["file"])
                 text = fn.translate()
-                if fn.rng_declared and not fn.uses_rng:
-                    fn = FnSM(self, spec, node, spec["file"], no_rng=True)
+                unused = set(fn.declared_streams) - fn.used_streams
+                if unused:
+                    fn = FnSM(self, spec, node, spec["file"], no_streams=unused)
                     text = fn.translate()
                 self.results[name] = dict(status="ok", text=text, spec=spec, line=node.lineno)
             except Untranslatable as e:
